@@ -520,7 +520,8 @@ def evaluate(ck, cases, tag="C08"):
         lits.append(g_case(case, o))
     shutil.rmtree(work, ignore_errors=True)
     ty = "spec * result obs"
-    bad, errs = common.coq_failing(tag, HEADER, ty, "c08_case", lits)
+    # small shards: the quick tier's ~700 cases are evaluated by ~8 coqc processes in parallel
+    bad, errs = common.coq_failing(tag, HEADER, ty, "c08_case", lits, shard=100 if len(lits) <= 1600 else 400)
     verdicts = ["ok"] * len(cases)
     detail = {}
     if bad:
